@@ -36,6 +36,23 @@ impl ParamsMap {
         }
     }
 
+    /// Inserts a value that has already been percent-decoded (for example by
+    /// [`url::Url::query_pairs`]) into the map, without decoding it a second time.
+    ///
+    /// If a value with that key already exists, the new value will be added to it.
+    pub(crate) fn insert_decoded(
+        &mut self,
+        key: impl Into<Cow<'static, str>>,
+        value: String,
+    ) {
+        let key = key.into();
+        if let Some(prev) = self.0.iter_mut().find(|(k, _)| k == &key) {
+            prev.1.push(value);
+        } else {
+            self.0.push((key, vec![value]));
+        }
+    }
+
     /// Inserts a value into the map, replacing any existing value for that key.
     pub fn replace(
         &mut self,
